@@ -49,3 +49,20 @@ contract(T, '_get_subitems', variant='slice', props=['C01'],
         ('later-start-0', 'all(out[j][1].start == 0 for j in range(1, len(out)))'),
     ]}},
     hints={'replay': None})
+
+contract(T, '_get_subitems', variant='int', props=['C01'],
+    params={'bounds': 'list[int]', 'item': 'int'},
+    let={'n': 'bounds[len(bounds) - 1]'},
+    requires=WF + [('index-in-range', '-n <= item and item < n')],
+    result='list[tuple[int,int]]',
+    # from the statement: "an integer selects one row": row (item mod n) of the concatenation, located in its part
+    ensures=[('one-piece', 'len(result) == 1'),
+             ('part-in-range', '0 <= result[0][0] and result[0][0] + 1 < len(bounds)'),
+             ('row-inside-part', '0 <= result[0][1] and result[0][1] < bounds[result[0][0] + 1] - bounds[result[0][0]]'),
+             ('locates-the-row', 'bounds[result[0][0]] + result[0][1] == ite(item < 0, item + n, item)')])
+
+contract(T, '_get_subitems', variant='tuple-slice', props=['C01'],
+    params={'bounds': 'list[int]', 'item': 'tuple[slice[opt[int],opt[int],opt[int]],elem]'},
+    let={'n': 'bounds[len(bounds) - 1]', 'S': 'norm_start(item[0].start, bounds[len(bounds) - 1])', 'E': 'norm_stop(item[0].stop, bounds[len(bounds) - 1])'},
+    requires=[(l, e.replace('item.', 'item[0].')) for l, e in SLICE_REQ],
+    result='list[tuple[int,slice]]', ensures=SLICE_ENS)
